@@ -1353,6 +1353,8 @@ class Sparse:
         """the named chunk plans: 'extents', 'grid<bytes>', 'cut@<offset>' (extents plus one cut)"""
         if name == 'extents':
             return self.cuts_extents()
+        if name.startswith('extents'):
+            return self.cuts_extents(int(name[7:]))
         if name.startswith('grid'):
             return self.cuts_grid(int(name[4:]))
         if name.startswith('cut@'):
@@ -1363,6 +1365,115 @@ class Sparse:
         return {'kind': 'sparse', 'fmt': self.fmt, 'total': self.total, 'tag': self.tag,
                 'extents': {str(o): content_field(d) for o, d in self.extents}, 'plan': plan,
                 'declared': self.declared, 'params': self.params}
+
+
+def inspx_line(sp, cuts, trace):
+    """the driver's explicit-chunk request: a chunk that lies in a gap between the extents is written Z<N>
+    (a zero run the model skips by Props/C01Locality instead of materialising it)"""
+    parts, pos = [], 0
+    for c in list(cuts) + [sp.total]:
+        if c > pos:
+            if any(o < c and o + len(d) > pos for o, d in sp.extents):
+                parts.append(content_field(sp.piece(pos, c)))
+            else:
+                parts.append('Z%d' % (c - pos))
+            pos = c
+    return req('inspx', sp.fmt, ';'.join(parts) or '-', 1 if trace else 0)
+
+
+def sparse_render(sp, cuts, trace=False, query=None, ctor=None):
+    """the implementation on the sparse stream, rendered like insp_impl.run_insp (trace, final state, verdict)"""
+    F = insp_impl.fi()
+    i = F.ALL_FORMATS[sp.fmt](**(ctor or {}))
+    raised, tr = None, []
+    for chunk in sp.chunks(cuts):
+        try:
+            i.eat_chunk(chunk)
+        except Exception as e:
+            raised = insp_impl.errname(e)
+            if trace:
+                tr.append(insp_impl.show_state(i) + ' err=' + raised)
+            break
+        if query:
+            query(i)
+        if trace:
+            tr.append(insp_impl.show_state(i))
+    i.finish()
+    tail = insp_impl.show_state(i) + '\t' + insp_impl.show_verdict(i, raised)
+    return ('|'.join(tr) + '\t' + tail) if trace else tail
+
+
+def sparse_pairs(ctx, cases, on_result=None):
+    """model (inspx) vs implementation on (sparse stream, plan name) cases; `unmodelled-zero-run` = model not run"""
+    lines, impls = [], []
+    for sp, plan in cases:
+        cuts = sp.plan(plan)
+        trace = len(cuts) <= 600
+        lines.append(inspx_line(sp, cuts, trace))
+        try:
+            impls.append(sparse_render(sp, cuts, trace, poker(ctx.rng) if ctx.rng.random() < 0.3 else None))
+        except Exception as e:
+            impls.append('CRASH:%s:%s' % (type(e).__name__, e))
+    replies = ask_parallel(ctx.driver, lines)
+    out = []
+    for (sp, plan), impl, rep in zip(cases, impls, replies):
+        ctx.evaluations += 1
+        ctx.count('corr/sparse/%s/%s' % (sp.tag, plan.split('@')[0]))
+        if rep == 'unmodelled-zero-run':
+            ctx.count('corr/sparse/model-not-run(unmodelled-zero-run)')
+            continue
+        if on_result:
+            on_result(sp, plan, impl)
+        if len(sp.plan(plan)) >= 2:
+            ctx.nontrivial(('sparse', sp.fmt, sp.total, tuple(o for o, _ in sp.extents), plan, zlib.adler32(sp.extents[0][1]) if sp.extents else 0))
+        if impl != rep:
+            out.append(Disagreement(dict(sp.case(plan), wellformed=sp.declared is not None,
+                                         expected=None if sp.declared is None else str(sp.declared)), impl[-1500:], rep[-1500:]))
+    return out
+
+
+def far_images(rng, quick=True, full=False):
+    """well-formed VHDX layouts whose metadata region lies at or beyond 4 GiB (and one just below, as a control)"""
+    G32, M = 1 << 32, 1 << 20
+    offs = [G32, G32 + M, G32 - M, G32 + M * rng.randrange(2, 3 * 4096)]
+    if full or not quick:
+        offs += [2 * G32, 2 * G32 + 7 * M, G32 + 5 * M, 1 << 36, (1 << 36) + M * rng.randrange(1, 1 << 16), 1 << 40]
+    out = []
+    for mo in offs:
+        size = rng.choice([0, 1, U32, 1 << 32, (1 << 32) + 1, 1 << 63, U64, rng.getrandbits(64), rng.getrandbits(40)])
+        nmeta = rng.choice([1, 5, 40])
+        stale = rng.getrandbits(40) if (mo % G32 >= 320 * K and rng.random() < 0.6) else None
+        out.append(vhdx_far(size, mo, nmeta=nmeta, vidx=rng.randrange(nmeta), tail=rng.choice([0, 1, 5000]), stale=stale,
+                            item_off=rng.choice([None, K64])))
+    return out
+
+
+def far_plans(sp):
+    mo = sp.params.get('meta_off')
+    plans = ['extents', 'extents%d' % (1 << 20)] if sp.total <= 1 << 36 else ['extents']
+    if mo:
+        plans += ['cut@%d' % (mo - 1), 'cut@%d' % (mo + 1)]
+    return plans
+
+
+def sparse_generic(rng, fmts=None):
+    """for every format a well-formed image followed by more than 4 GiB of zeros (stream-length based sizes
+    beyond 2^32; position arithmetic beyond 32 bits for everything else)"""
+    out = []
+    for fmt in fmts or FORMATS:
+        w = wellformed(fmt, rng, params=dict(wf_params('vmdk', rng), footer=False) if fmt == 'vmdk' else None)
+        total = len(w.data) + (1 << 32) + rng.randrange(0, 1 << 30)
+        ext = {0: w.data, total - 1: b'\x01'} if rng.random() < 0.5 else {0: w.data}
+        if fmt == 'luks':
+            declared = total - w.params['payload_offset'] * 512
+        elif fmt in ('raw', 'gpt', 'qed'):
+            declared = total
+        else:
+            declared = w.declared
+        if fmt == 'raw':
+            ext = {k: v for k, v in ext.items() if v}
+        out.append(Sparse(fmt, {k: v for k, v in ext.items() if len(v)}, total, 'wf/%s/sparse-tail' % fmt, declared, w.params))
+    return out
 
 
 def sparse_of_case(c):
